@@ -214,8 +214,17 @@ package client
 //@     | ==> ncalls("fnfield:H.client.clientStream.teardown") == old(ncalls("fnfield:H.client.clientStream.teardown")) + 1
 //@   ensures[C02.send_ok_means_written C07.send_fails_when_done] result == nil ==> ncalls("(types.RpcReadWriter).Write") == old(ncalls("(types.RpcReadWriter).Write")) + 1
 
+// end of a single-response stream: success only when the stream's recorded terminal state is the clean end
+//@ func client.(*clientStream).recvEnd
+//@   nopanic[C13.nopanic]
+//@   ctxaware[C07.receive_wakes_on_stream_ctx] cs.ctx
+//@   ensures[C03.single_response_success_needs_the_peers_status C02.single_response_success_needs_the_peers_status] result == nil ==>
+//@     | ncalls("call:client.(*clientStream).readErrorIfDone") >= old(ncalls("call:client.(*clientStream).readErrorIfDone")) + 1 && bound("err") && err == io.EOF
+
 //@ func client.(*clientStream).RecvMsg
 //@   nopanic[C13.nopanic]
+//@   ensures[C03.single_response_success_needs_the_peers_status C02.single_response_success_needs_the_peers_status] cs.singleResponse && result == nil ==>
+//@     | ncalls("call:client.(*clientStream).recvEnd") == old(ncalls("call:client.(*clientStream).recvEnd")) + 1 && lastret("clientStream).recvEnd") == nil
 //@   ctxaware[C07.receive_wakes_on_stream_ctx] cs.ctx
 //@   atcall[C02.received_body_decoded] (google.golang.org/grpc/encoding.CodecV2).Unmarshal : bound("body") && body != nil && bufContent(arg1[0]) == body.Data && arg2 == m
 //@   ensures[C13.success_only_with_data C02.success_only_with_data] result == nil ==> bound("ok") && ok && ncalls("(google.golang.org/grpc/encoding.CodecV2).Unmarshal") == old(ncalls("(google.golang.org/grpc/encoding.CodecV2).Unmarshal")) + 1
@@ -223,24 +232,35 @@ package client
 //@   atcall[C02.no_spurious_cancel C07.ctx_status_only_while_running] client.toStatusError :
 //@     | ncalls("call:client.(*clientStream).readErrorIfDone") >= old(ncalls("call:client.(*clientStream).readErrorIfDone")) + 2 && bound("done") && !done
 
+// the two exported constructors are thin wrappers executed in place at their call sites
 //@ func client.NewStream
+//@   inline
+//@   requires ctx != nil && rw != nil && teardown != nil
+//@   requires forall j Int :: 0 <= j && j < len(statsHandlers) ==> statsHandlers[j] != nil
+//@ func client.NewSingleResponseStream
+//@   inline
+//@   requires ctx != nil && rw != nil && teardown != nil
+//@   requires forall j Int :: 0 <= j && j < len(statsHandlers) ==> statsHandlers[j] != nil
+
+//@ func client.newClientStream
 //@   nopanic[C13.nopanic]
 //@   requires ctx != nil && rw != nil && teardown != nil
 //@   requires forall j Int :: 0 <= j && j < len(statsHandlers) ==> statsHandlers[j] != nil
 //@   makechan 0 tag 0 class client.rCh
+//@   ensures[C03.single_response_recorded] result != nil && result.singleResponse == singleResponse
 //@   ensures[C06.no_write_on_creation] ncalls("(types.RpcReadWriter).Write") == old(ncalls("(types.RpcReadWriter).Write"))
 //@   ensures[C14.one_reader C02.one_reader] ncalls("go:(*github.com/avos-io/goat/internal/client.clientStream).readLoop") == old(ncalls("go:(*github.com/avos-io/goat/internal/client.clientStream).readLoop")) + 1
 
 // teardown closure of a client stream: reset when asked, always unregister and cancel; it is the only
 // function the stream's teardown field ever holds
-//@ fnfield H.client.clientStream.teardown is client.NewStream$1
-//@ func client.NewStream$1
+//@ fnfield H.client.clientStream.teardown is client.newClientStream$1
+//@ func client.newClientStream$1
 //@   nopanic[C13.nopanic]
 //@   captures[C07.teardown_wellformed] rw != nil && teardown != nil && cancel != nil
 //@   atcall[C07.reset_shape C06.client_reset_shape] (types.RpcReadWriter).Write : arg2 != nil && arg2.Id == id && arg2.Reset_ != nil && arg2.Reset_.Type == "RST_STREAM"
 //@     | && arg2.Header != nil && arg2.Header.Method == method && arg2.Header.Source == sourceAddress && arg2.Header.Destination == destAddress && arg2.Body == nil && arg2.Trailer == nil && arg2.Status == nil
 //@   ensures[C07.reset_when_asked C06.single_reset] ncalls("(types.RpcReadWriter).Write") == old(ncalls("(types.RpcReadWriter).Write")) + ite(sendRst, 1, 0)
-//@   ensures[C14.teardown_always_unregisters C11.teardown_always_unregisters C07.teardown_always_cancels] ncalls("fnfield:cell.Int.github.com_avos_io_goat_internal_client.NewStream.teardown") == old(ncalls("fnfield:cell.Int.github.com_avos_io_goat_internal_client.NewStream.teardown")) + 1 && done(cancels(cancel))
+//@   ensures[C14.teardown_always_unregisters C11.teardown_always_unregisters C07.teardown_always_cancels] ncalls("fnfield:cell.Int.github.com_avos_io_goat_internal_client.newClientStream.teardown") == old(ncalls("fnfield:cell.Int.github.com_avos_io_goat_internal_client.newClientStream.teardown")) + 1 && done(cancels(cancel))
 
 // deferred closure of the read loop: reset iff the stream ended without a trailer because its context is done
 //@ func client.(*clientStream).readLoop$1
